@@ -195,6 +195,10 @@ func mergeASAACLs(ab *cmdsPair, name, prefix string) {
 				break
 			}
 		}
+		// No permit line found: add before all (deny) lines.
+		if i < 0 {
+			i = 0
+		}
 		acl = append(acl[:i], append(appendACL, acl[i:]...)...)
 	}
 	// Store changed ACL.
@@ -229,6 +233,10 @@ func mergeIOSACLs(ab *cmdsPair, name, prefix string) {
 				i++
 				break
 			}
+		}
+		// No permit line found: add before all (deny) lines.
+		if i < 0 {
+			i = 0
 		}
 		acl = append(acl[:i], append(appendACL, acl[i:]...)...)
 	}
